@@ -289,8 +289,12 @@ def enrich_fromaudits(report_: richreports.report, atok) -> richreports.report:
                 if isinstance(a, ast.List):
                     (start, _) = locations(report_, atok, a)
                 else:
-                    (_, start) = locations(report_, atok, a.value)
-                    start = start + (0, 1)
+                    # The bracket is the first "[" after the indexed value; it need not
+                    # follow it directly (a space, a closing parenthesis, a line break).
+                    token = atok.next_token(a.value.last_token)
+                    while token.string != "[" and token.index < a.last_token.index:
+                        token = atok.next_token(token)
+                    start = richreports.location(token.start)
                 enrich_from_type(report_, t, start, start)
                 _enrich(
     report_,
